@@ -91,6 +91,18 @@ type State struct {
 	mapWitness []mapWit
 	calleePkgs []string // packages whose code runs in the call being havocked (nil: unknown)
 	epochTop   map[int]string // allocation top when the heap of that epoch came into being (copy on write)
+	// range-over-map loops: the set of keys already delivered by each active iterator
+	// ((Array K Bool) term; copy on write). Lets a loop invariant speak about "visited(k)".
+	rangeVis map[*rangeState]string
+}
+
+func (st *State) setVis(rs *rangeState, t string) {
+	m := make(map[*rangeState]string, len(st.rangeVis)+1)
+	for k, v := range st.rangeVis {
+		m[k] = v
+	}
+	m[rs] = t
+	st.rangeVis = m
 }
 
 // mapWit: a map entry the path relied on (range step or lookup); used to give
